@@ -207,7 +207,7 @@ World::World(const WorldCfg &c) : cfg(c) {
     iface.error = cfg.with_error_cb ? cb_error : nullptr;
     iface.write = cb_write;
     iface.control = cfg.with_control ? cb_control : nullptr;
-    iface.flush = cb_flush;
+    iface.flush = cfg.with_flush ? cb_flush : nullptr;
     iface.reset = cb_reset;
     ctx->user_context = nullptr;
 }
